@@ -132,7 +132,12 @@ def check(fs, prefixes, res: Result, witness):
                                leaked_to_stdout=leak.getvalue()[:200], outcome=repr(rr)[:100]))
     B, o = reload(s1, prefixes)
     if B is None:
-        res.count("skipped:rendering-rejected(C06)")
+        # the values used here hold no quote and no backslash (C06's recorded finding), so a
+        # saved text that the parser refuses is a failure of the save/load cycle itself
+        res.count("reloads")
+        res.violation({"clause": "saved-text-does-not-parse",
+                       "error": lab.error_class(o.error) if o.verdict() is False else str(o.verdict())},
+                      dict(witness, rendered=s1[:500], parser_error=repr(o.error)[:200]))
         return
     res.count("reloads")
     res.count("reloads-via-" + VIA["via"])
